@@ -55,6 +55,18 @@ def analyse_site(ctx, crate, path, clause):
             # a latitude difference computed earlier (ConstantsC2V::new passes d_min): look through
             res.append((None, "dlat argument %s is not a difference" % show(dlat)[:80], ev.at)); continue
         lats = [dlat[3], dlat[4]]
+        # dlon is the difference of the longitudes of the same two points, in the same order: the
+        # longitude of a point is the sibling component of its latitude (the other field of the same
+        # tuple / closure environment), or, for bare parameters, another bare value
+        okl = dlon[0] == 'op' and dlon[1] == 'sub'
+        if not all(B[0] in ('fld', 'p', 'sym') for B in lats):
+            okl = True            # latitudes computed in place (the per-depth constants): no two named points
+        elif okl:
+            for A, B in zip((dlon[3], dlon[4]), lats):
+                if B[0] == 'fld': okl = okl and A[0] == 'fld' and A[1] == B[1] and A[2] != B[2]
+                else: okl = okl and A[0] != 'fld' and A != B and A not in lats
+        if not okl:
+            res.append((False, "squared_half_segment(dlon=%s, dlat=%s, ..) — dlon is not the difference of the longitudes of the two points whose latitudes make dlat (same order)" % (show(dlon)[:60], show(dlat)[:60]), ev.at)); continue
         pending = []   # (param term, latitude term) obligations for the call sites of the parent
         okc = True; used = []
         for c in (c1, c2):
